@@ -177,27 +177,41 @@ pub struct Cmp {
 }
 impl Eval for Cmp {
     fn eval<R: PathResolver>(&self, context: &EvalContext<R>) -> bool {
-        match self.op {
-            CmpOp::Eq => cmp_dispatch(&PartialEq::eq, &context.resolve(&self.path), &self.value),
-            CmpOp::NotEq => cmp_dispatch(&PartialEq::ne, &context.resolve(&self.path), &self.value),
-            CmpOp::LessThan => {
-                cmp_dispatch(&PartialOrd::lt, &context.resolve(&self.path), &self.value)
-            }
-            CmpOp::LessThanEq => {
-                cmp_dispatch(&PartialOrd::le, &context.resolve(&self.path), &self.value)
-            }
-            CmpOp::GreatThan => {
-                cmp_dispatch(&PartialOrd::gt, &context.resolve(&self.path), &self.value)
-            }
-            CmpOp::GreatThanEq => {
-                cmp_dispatch(&PartialOrd::ge, &context.resolve(&self.path), &self.value)
-            }
+        cmp_values(&self.op, &context.resolve(&self.path), &self.value)
+    }
+}
+
+/// Compares a resolved tag value against a filter literal.
+///
+/// A comparison holds only for a tag that has a value, and the ordering
+/// operators only between values of the same kind.
+fn cmp_values(op: &CmpOp, lhs: &Value, rhs: &Value) -> bool {
+    match op {
+        CmpOp::Eq => cmp_dispatch(&PartialEq::eq, lhs, rhs),
+        CmpOp::NotEq => cmp_dispatch(&PartialEq::ne, lhs, rhs),
+        CmpOp::LessThan => cmp_dispatch(&|l: &Value, r: &Value| same_kind(l, r) && l < r, lhs, rhs),
+        CmpOp::LessThanEq => {
+            cmp_dispatch(&|l: &Value, r: &Value| same_kind(l, r) && l <= r, lhs, rhs)
+        }
+        CmpOp::GreatThan => {
+            cmp_dispatch(&|l: &Value, r: &Value| same_kind(l, r) && l > r, lhs, rhs)
+        }
+        CmpOp::GreatThanEq => {
+            cmp_dispatch(&|l: &Value, r: &Value| same_kind(l, r) && l >= r, lhs, rhs)
         }
     }
 }
 
+/// Ordering comparisons are only defined between values of the same kind
+fn same_kind(lhs: &Value, rhs: &Value) -> bool {
+    std::mem::discriminant(lhs) == std::mem::discriminant(rhs)
+}
+
 fn cmp_dispatch<Cmp: Fn(&Value, &Value) -> bool>(cmp: &Cmp, lhs: &Value, rhs: &Value) -> bool {
     match lhs {
+        // A path that does not resolve to a value satisfies no comparison
+        Value::Null => false,
+
         Value::List(list) => {
             if !rhs.is_list() {
                 list.iter().any(|el| cmp_dispatch(cmp, el, rhs))
